@@ -7,6 +7,7 @@ import (
 	"encoding/json"
 	"fmt"
 	"math"
+	"math/big"
 	"math/rand"
 	"sort"
 	"strconv"
@@ -282,6 +283,188 @@ func c16NumOracle(in string) string {
 	return c16F(f)
 }
 
+// ---------------------------------------------------------------- num() at the integer boundaries
+
+// c16BoundaryDigits: decimal digit strings around the limits of the integer types a
+// conversion could go through (int32, uint32, the 53-bit mantissa, int64, uint64), powers of
+// ten, and for every length 1-40 the all-nines string, 1 followed by zeros, and random digits.
+func c16BoundaryDigits(r *rand.Rand, perLen int) []string {
+	seen := map[string]bool{}
+	var out []string
+	add := func(s string) {
+		if s != "" && !seen[s] {
+			seen[s] = true
+			out = append(out, s)
+		}
+	}
+	pow := func(b, e int64) *big.Int { return new(big.Int).Exp(big.NewInt(b), big.NewInt(e), nil) }
+	var bases []*big.Int
+	for _, e := range []int64{7, 8, 15, 16, 24, 31, 32, 52, 53, 54, 62, 63, 64, 65, 127, 128} {
+		bases = append(bases, pow(2, e))
+	}
+	for _, e := range []int64{9, 10, 15, 16, 17, 18, 19, 20, 21, 22, 23, 38} {
+		bases = append(bases, pow(10, e))
+	}
+	for _, b := range bases {
+		for d := int64(-2); d <= 2; d++ {
+			v := new(big.Int).Add(b, big.NewInt(d))
+			add(v.String())
+		}
+	}
+	// the halfway points between neighbouring doubles just above 2^53 and 2^63 (round to even)
+	for _, t := range []string{"9007199254740993", "9007199254740995", "9223372036854776832", "9223372036854775296", "9223372036854777856", "18446744073709552640", "18446744073709553664",
+		"9223372036854775807", "9223372036854775808", "9999999999999999999", "0", "1", "7", "42"} {
+		add(t)
+	}
+	for n := 1; n <= 40; n++ {
+		add(strings.Repeat("9", n))
+		add("1" + strings.Repeat("0", n-1))
+		add(strings.Repeat("9", n-1) + "8")
+		add("9" + strings.Repeat("0", n-1))
+		if n >= 2 {
+			add("9223372036854775807922337203685477580792"[:n]) // prefixes of MaxInt64 MaxInt64
+			add("1844674407370955161518446744073709551615"[:n])
+		}
+		for k := 0; k < perLen; k++ {
+			b := make([]byte, n)
+			for i := range b {
+				b[i] = byte('0' + r.Intn(10))
+			}
+			if b[0] == '0' {
+				b[0] = byte('1' + r.Intn(9))
+			}
+			if k%2 == 1 {
+				b[0] = '9' // the upper part of the length class: above MaxInt64 / MaxUint64 for 19 / 20 digits
+			}
+			add(string(b))
+		}
+	}
+	return out
+}
+
+// c16Decorate: the spellings of one digit string that ParseFloat accepts (sign, leading zeros,
+// a trailing point / fraction, exponents, underscores, hex) and near misses (blanks, lone sign)
+func c16Decorate(r *rand.Rand, d string, all bool) []string {
+	v, _ := new(big.Int).SetString(d, 10)
+	hexs := fmt.Sprintf("%x", v)
+	grouped := d
+	if len(d) > 3 {
+		var parts []string
+		for e := len(d); e > 0; e -= 3 {
+			b := e - 3
+			if b < 0 {
+				b = 0
+			}
+			parts = append([]string{d[b:e]}, parts...)
+		}
+		grouped = strings.Join(parts, "_")
+	}
+	pad := func(n int) string {
+		if len(d) >= n {
+			return "0" + d
+		}
+		return strings.Repeat("0", n-len(d)) + d
+	}
+	forms := []string{d, "-" + d, "+" + d, "0" + d, "000" + d, pad(19), pad(20), pad(18), " " + d, d + " ", "\t" + d, d + "\n", d + ".", d + ".0", d + ".5", d + ".00000000000000000000", d + "e0", d + "E0", d + "e+0", d + "e-0",
+		d + "e1", d + "0e-1", d + "e-1", "-" + d + ".", "+" + d + ".0", "-0" + d, grouped, "-" + grouped, "0x" + hexs + "p0", "0X" + strings.ToUpper(hexs) + "P0", "0x" + hexs + "p+0", "-0x" + hexs + "p0", "0x" + hexs, "0x_" + hexs + "p0",
+		d[:len(d)-1] + "." + d[len(d)-1:] + "e1", "." + d + "e" + fmt.Sprint(len(d)), "0." + d + "e+" + fmt.Sprint(len(d)), d + "_", "_" + d, d + "f", d + "d", "+-" + d, "++" + d, "- " + d}
+	if all {
+		return forms
+	}
+	// the plain spellings always, a sample of the others
+	out := append([]string{}, forms[:8]...)
+	for _, j := range r.Perm(len(forms) - 8)[:7] {
+		out = append(out, forms[8+j])
+	}
+	return out
+}
+
+func c16ModOracle(x float64, m int) (string, bool) {
+	if math.IsNaN(x) || math.Abs(x) >= 1<<63 {
+		return "", false
+	}
+	return c16F(float64(int(x) % m)), true
+}
+
+func c16NumBoundaries(r *rand.Rand, tier string, emit func(Case)) {
+	digits := c16BoundaryDigits(r, tierN(tier, 2, 12))
+	zero, one := 0.0, 1.0 // variables: the signs of zero results must come out as at run time
+	fields := []string{"class", "out"}
+	emptyDoc := []File{{Name: "in.json", Data: []byte("{}")}}
+	expect := func(prog string, files []File, what string, want string, row string) {
+		emit(Case{Req: RunReq(prog, nil, files, false), Fields: fields, Meta: metaProg(prog, "probe", what, "input", string(files[0].Data), "row", row),
+			Oracle: func(i Resp) string {
+				if i["class"] != "ok" || string(i.Bytes("out")) != want {
+					return fmt.Sprintf("%s: got %s %q, Go's strconv.ParseFloat / float64 arithmetic say %q", what, i["class"], string(i.Bytes("out")), want)
+				}
+				return ""
+			}})
+	}
+	modelOnly := func(prog string, files []File, what string, row string) {
+		emit(Case{Req: RunReq(prog, nil, files, false), Fields: fields, Meta: metaProg(prog, "probe", what, "input", string(files[0].Data), "row", row), Oracle: c16OkOrRuntime, NonTrivial: c09NT})
+	}
+	for di, d := range digits {
+		f, _ := strconv.ParseFloat(d, 64)
+		// (a) num() of every spelling
+		for _, s := range c16Decorate(r, d, di%16 == 0 || tier == "thorough") {
+			doc := map[string]string{}
+			S := c16StrExpr(r, s, "s", doc)
+			prog := "{\n  n = num(" + S + ")\n  print n, n is number, n is null\n}\n"
+			w := c16NumOracle(s)
+			expect(prog, []File{{Name: "in.json", Data: []byte(c16Doc(doc))}}, fmt.Sprintf("num(%q)", s), w+" "+fmt.Sprint(w != "null")+" "+fmt.Sprint(w == "null")+"\n", "num(string)")
+		}
+		// (b) the string in arithmetic (converted like num(), 0 when it is not a number)
+		if di%2 == 0 {
+			s := pick(r, []string{d, "-" + d, d + ".", "0" + d, d + "e0", "+" + d})
+			sf, err := strconv.ParseFloat(s, 64)
+			if err != nil {
+				sf = 0
+			}
+			prog := "{\n  s = " + mustStrLit(s) + "\n  print s - 0, s * 1, -s, s / 1, 0 - s, (s - 0) == num(s)\n}\n"
+			expect(prog, emptyDoc, "arithmetic on the string "+s, fmt.Sprintf("%s %s %s %s %s true\n", c16F(sf-zero), c16F(sf*one), c16F(-sf), c16F(sf/one), c16F(zero-sf)), "string in arithmetic")
+		}
+		// (c) the digits as a number literal of the program and as a number of the input
+		if di%2 == 1 || len(d) >= 15 {
+			prog := "{\n  x = " + d + "\n  print x, x + 0, 0 - x, x == num('" + d + "'), x is number\n  print $.x, $.x + 0, $.x * 1, $.x == x, $.neg, $.dot, $.exp\n}\n"
+			in := `{"x": ` + d + `, "neg": -` + d + `, "dot": ` + d + `.0, "exp": ` + d + `e0}`
+			expect(prog, []File{{Name: "in.json", Data: []byte(in)}}, "the number "+d+" as a literal and from the input",
+				fmt.Sprintf("%s %s %s true true\n%s %s %s true %s %s %s\n", c16F(f), c16F(f+0), c16F(0-f), c16F(f), c16F(f+0), c16F(f*1), c16F(-f), c16F(f), c16F(f)), "number literal / JSON number")
+		}
+		// (d) conversions to an integer: %, num(number), index
+		if di%3 == 0 || (len(d) >= 18 && len(d) <= 21) {
+			m := pick(r, []int{7, 10, 2, 1000, 4294967296})
+			prog := fmt.Sprintf("{\n  print $.x %% %d, num('%s') %% %d, (0 - $.x) %% %d, num($.x), num(0 - $.x)\n}\n", m, d, m, m)
+			in := `{"x": ` + d + `}`
+			w1, ok := c16ModOracle(f, m)
+			if ok {
+				w2, _ := c16ModOracle(-f, m)
+				expect(prog, []File{{Name: "in.json", Data: []byte(in)}}, "integer conversions of "+d, fmt.Sprintf("%s %s %s %s %s\n", w1, w1, w2, c16F(math.Trunc(f)), c16F(math.Trunc(-f)+0)), "% and num(number)")
+			} else {
+				modelOnly(prog, []File{{Name: "in.json", Data: []byte(in)}}, "integer conversions of "+d+" (outside int64: the model decides)", "% and num(number), outside int64")
+			}
+		}
+		// (e) order: num() of d and of d+1 compare like the nearest doubles do
+		if di%3 == 1 {
+			v, _ := new(big.Int).SetString(d, 10)
+			d2 := new(big.Int).Add(v, big.NewInt(pick(r, []int64{1, 1, 2, 1000, 1025}))).String()
+			f2, _ := strconv.ParseFloat(d2, 64)
+			prog := "{\n  a = num('" + d + "'); b = num('" + d2 + "')\n  print a < b, a == b, a > b, a <= b, b - a\n}\n"
+			expect(prog, emptyDoc, "order of num("+d+") and num("+d2+")", fmt.Sprintf("%v %v %v %v %s\n", f < f2, f == f2, f > f2, f <= f2, c16F(f2-f)), "order")
+		}
+	}
+	// (f) index use: the subscript goes through a conversion to int
+	for _, ix := range []string{"0", "1", "2", "00000000000000000001", "0000000000000000002", "2.", "1.0", "1e0", "10e-1", "0x1p0", "0x1p1", "+1", "-0", "1_0e-1", "2.9", "0.5", "3", "-1", "9223372036854775807", "9223372036854775808",
+		"18446744073709551616", "18446744073709551617", "4294967296", "4294967297", "4294967298", "-9223372036854775808", "-9223372036854775809", "1e19", "1e30", "nan", "inf", "abc"} {
+		prog := "{\n  a = [10, 20, 30]\n  i = num(" + mustStrLit(ix) + ")\n  print i\n  print a[i]\n}\n"
+		f, err := strconv.ParseFloat(ix, 64)
+		if err == nil && f >= 0 && f < 3 {
+			expect(prog, emptyDoc, "index "+ix, fmt.Sprintf("%s\n%d\n", c16F(f), []int{10, 20, 30}[int(f)]), "index")
+		} else {
+			modelOnly(prog, emptyDoc, "index "+ix, "index out of range / not a number")
+		}
+	}
+}
+
 // ---------------------------------------------------------------- totality
 
 var c16Methods = []string{"length", "push", "pop", "popfirst", "contains", "sort", "pluck", "split", "lower", "upper", "floor", "ceil", "round", "nosuch", "x"}
@@ -549,6 +732,11 @@ func init() {
 				emit(Case{Req: RunReq(prog, nil, []File{{Name: "in.json", Data: []byte("{}")}}, false), Fields: []string{"class", "out"}, Meta: metaProg(prog), Oracle: c16OkOrRuntime, NonTrivial: c09NT})
 			}
 		},
+	})
+	register(Family{
+		Name: "num-boundaries", Prop: "C16",
+		Rule: "num() on decimal digit strings of EVERY length 1-40 (all nines, 1 followed by zeros, prefixes of MaxInt64 / MaxUint64, random digits, upper part of each length class) and within +-2 of 2^7 ... 2^128 (int32, uint32, 2^53, int64, uint64 limits), 10^9 ... 10^38 and the round-to-even halfway points above 2^53 / 2^63 / 2^64, each in up to 44 spellings: sign, leading + , leading zeros (also padded to 18 / 19 / 20 characters), surrounding blanks, trailing . / .0 / .5 / twenty zeros, exponent forms, digit groups with underscores, hex mantissa with p exponent, and near misses; oracle: strconv.ParseFloat on the same text (null when it fails). The same values as strings in arithmetic (s - 0, s * 1, -s), as number literals of the program, as numbers of the JSON input (plain, negative, with .0, with e0), under %, num(number) and as array subscripts (oracle: Go's float64 / int arithmetic inside int64, the model alone outside), and the order of num(d) and num(d+k)",
+		Gen:  c16NumBoundaries,
 	})
 	register(Family{
 		Name: "totality", Prop: "C16",
